@@ -543,22 +543,26 @@ class Engine:
             elif g is True: s.mem.forget(a, sz)
             s.setreg(f, I.res, a, g, 64); return None
         if op == 'load':
-            p = s.val(f, I.p); v = s.load_ty(p, I.ty, g, 'load in ' + f.name[:70] + (' [%%%s]' % I.res if s.opts.get('debug') else ''))
+            p = s.val(f, I.p)
+            if I.atomic: p = s.aligned_ptr(p, s.L.size(I.ty), g, f.name[:70])
+            v = s.load_ty(p, I.ty, g, 'load in ' + f.name[:70] + (' [%%%s]' % I.res if s.opts.get('debug') else ''))
             s.setreg(f, I.res, v, g, s.width(I.ty))
             if I.atomic: s.setlast(t, p, v, s.L.size(I.ty), g)
             return None
         if op == 'store':
-            s.store_ty(s.val(f, I.p), I.v.ty, s.val(f, I.v), g, 'store in ' + f.name[:70]); return None
+            p = s.val(f, I.p)
+            if I.atomic: p = s.aligned_ptr(p, s.L.size(I.v.ty), g, f.name[:70])
+            s.store_ty(p, I.v.ty, s.val(f, I.v), g, 'store in ' + f.name[:70]); return None
         if op == 'fence': return None
         if op == 'cmpxchg':
-            sz = s.L.size(I.ty); w = sz * 8; p = s.val(f, I.p)
+            sz = s.L.size(I.ty); w = sz * 8; p = s.aligned_ptr(s.val(f, I.p), sz, g, f.name[:70])
             old = s.mem.load(p, sz, g, 'cmpxchg in ' + f.name[:70]); ok = icmp('eq', old, s.val(f, I.cmp), w)
             s.mem.store(p, sz, s.val(f, I.new), gand(g, ok), 'cmpxchg in ' + f.name[:70])
             s.setreg(f, I.res, (old, b2v(ok)), g, (w, 1))
             s.setlast(t, p, old, sz, g)
             return None
         if op == 'atomicrmw':
-            sz = s.L.size(I.ty); w = sz * 8; p = s.val(f, I.p); old = s.mem.load(p, sz, g, 'atomicrmw in ' + f.name[:70]); v = s.val(f, I.v)
+            sz = s.L.size(I.ty); w = sz * 8; p = s.aligned_ptr(s.val(f, I.p), sz, g, f.name[:70]); old = s.mem.load(p, sz, g, 'atomicrmw in ' + f.name[:70]); v = s.val(f, I.v)
             nv = v if I.rmw == 'xchg' else binop(I.rmw, old, v, w)
             s.mem.store(p, sz, nv, g, 'atomicrmw in ' + f.name[:70]); s.setreg(f, I.res, old, g, w)
             s.setlast(t, p, old, sz, g)
@@ -600,6 +604,20 @@ class Engine:
         if op == 'resume':
             return s.unwind(t, ctrl[1:], g)
         raise Unsupported('instruction: ' + I.text.strip()[:100])
+    def aligned_ptr(s, p, sz, g, what):
+        """atomic accesses are naturally aligned: drop pointer alternatives that are not (they stem from tagged-pointer
+        values merged in from other paths) and make reaching them a checked violation"""
+        if sz <= 1 or isinstance(p, int):
+            if isinstance(p, int) and sz > 1 and p % sz: s.add_check(g, 'misaligned atomic access in ' + what, 'mem')
+            return p
+        al = deep_alts(p); keep = []; bad = False
+        for gg, a in al:
+            if a is not None and a % sz: bad = gor(bad, gg)
+            else: keep.append((gg, a))
+        if bad is False: return p
+        s.add_check(gand(g, bad), 'misaligned atomic access in ' + what, 'mem')
+        if any(a is None for _, a in keep): return p
+        return mk_gv(keep, 64) if keep else 0
     def setlast(s, t, p, v, sz, g):
         """remember the location/value of this path's latest atomic read (what a following spin-wait watches)"""
         env = s.env
